@@ -143,4 +143,19 @@ Section Main.
     - now rewrite Hcat.
     - now rewrite Hcat.
   Qed.
+
+  (** ... in particular with the parts the OpenMP entry point computes in
+      32-bit arithmetic, for every chunk size and every number of threads *)
+  Theorem openmp_any_chunksize p n_cues all chunk files trs m o c :
+    (0 <= n_cues < two32)%Z -> NoDup all -> Forall oko32 all ->
+    (1 <= chunk)%Z -> (Z.of_nat (length all) + chunk <= two32)%Z ->
+    Forall (cues_ok (okc_n n_cues)) files ->
+    files_interleaved (omp_parts all chunk) files trs ->
+    oko32 o -> okc_n n_cues c ->
+    kget n_cues (run_files R rO radd rmul rsub (kstore R) (kget n_cues) (kset n_cues) p
+                           (omp_parts all chunk) files trs m) o c =
+    if mem_z o all then learn p (concat files) (kget n_cues m) o c else kget n_cues m o c.
+  Proof.
+    intros. apply openmp_any_schedule; auto. now apply omp_parts_concat.
+  Qed.
 End Main.
